@@ -1044,7 +1044,7 @@ def degree_reduction(degree, ctrlpts, **kwargs):
     for i in range(1, r1 + 1):
         alpha = float(i) / float(degree)
         pts_red[i] = [(c1 - (alpha * c2)) / (1 - alpha) for c1, c2 in zip(ctrlpts[i], pts_red[i - 1])]
-    for i in range(degree - 2, r1 + 2):
+    for i in range(degree - 2, r, -1):
         alpha = float(i + 1) / float(degree)
         pts_red[i] = [(c1 - ((1 - alpha) * c2)) / alpha for c1, c2 in zip(ctrlpts[i + 1], pts_red[i + 1])]
 
